@@ -183,8 +183,8 @@ fn short_value<const L: usize, const K: usize>() {
     assert!(s.is_empty());
     assert!(s.next_flag().is_none());
     assert!(s.next_value_os().is_none());
-    kani::cover!(pos < rest.len() && is_utf8(rest), "utf8 remainder");
-    kani::cover!(pos < rest.len() && !is_utf8(rest), "remainder with non-utf8");
+    kani::cover!(L < K + 2 || (pos < rest.len() && is_utf8(rest)), "utf8 remainder (when one can exist)");
+    kani::cover!(L < K + 2 || (pos < rest.len() && !is_utf8(rest)), "remainder with non-utf8 (when one can exist)");
     kani::cover!(K == 0 || L < K + 2 || pos > K, "multi-byte flag (when it fits)");
 }
 
